@@ -18,6 +18,8 @@ CONFIGS = {
     "sse41": ("release", HOOK + " -C target-feature=+sse4.1", "", "cx-exec"),
     "avx": ("release", HOOK + " -C target-feature=+avx", "", "cx-exec"),
     "avx2": ("release", HOOK + " -C target-feature=+avx2", "", "cx-exec"),
+    # every instruction-set extension the host CPU has (covers cfg(target_feature = ...) paths beyond the named sets, e.g. avx512*)
+    "native": ("release", HOOK + " -C target-cpu=native", "", "cx-exec"),
     "fe32": ("release", HOOK, "force32", "cx-exec"),
     "ctvictim": ("release", "", "", "cx-ctvictim"),
     "ctvictim32": ("release", "", "force32", "cx-ctvictim"),
